@@ -324,6 +324,9 @@ func (t *Transport) healthyBody(req *http.Request, reqBody []byte, h uint64) []b
 		return []byte(`"eligible"`)
 	case 7:
 		return []byte(`[true,{"ok":false},3]`)
+	case 8:
+		// a server that pretty-prints
+		return []byte("{\n  \"ok\": true,\n  \"count\": 3,\n  \"name\": \"Bob\",\n  \"items\": [ { \"id\": 1, \"tag\": \"a\" } ]\n}\n")
 	}
 	switch v {
 	case 0:
